@@ -3,6 +3,7 @@ package formula
 import (
 	"bytes"
 	"fmt"
+	"math/big"
 	"strconv"
 	"strings"
 	"unicode"
@@ -571,7 +572,10 @@ func (s *Scanner) Scan() SyntaxKind {
 						s.error(M_Hexadecimal_digit_expected)
 						s.tokenValue = "0"
 					}
-					s.tokenValue = "0x" + s.tokenValue
+					// a hexadecimal literal denotes its integer value
+					if v, ok := new(big.Int).SetString(s.tokenValue, 16); ok {
+						s.tokenValue = v.String()
+					}
 					s.tokenFlags |= TF_HexSpecifier
 					// s.token = s.checkNumberSuffix()
 					// return s.token
